@@ -55,6 +55,7 @@ type Ctx struct {
 	Notes     []string
 	floorFail []string
 	VTA       bool // refine call graphs with VTA (thorough)
+	cg        *cgraph
 }
 
 type loadSpec struct {
